@@ -167,7 +167,11 @@ func (tb *ATable) RegisterPropertyCallback(
 		*cbListPtr = make([]PropertyCallback, 0, 10)
 	}
 
-	*cbListPtr = append(*cbListPtr, theNewCallback)
+	// Cells are passed and stored by value, and the copies share the backing
+	// array of this list: never append in place, or a registration on one
+	// copy would overwrite the one made on another copy.
+	existing := *cbListPtr
+	*cbListPtr = append(existing[:len(existing):len(existing)], theNewCallback)
 	return nil
 }
 
